@@ -225,6 +225,8 @@ MODELS = {
     "Builder2Neg": M("Builder2-as-found-D2", "Builder2.tla", "MC_Builder2Neg.cfg", workers=2, expect_violation=True),
     "DimTypes": M("DimTypes", "DimTypes.tla", "MC_DimTypes.cfg", workers=2),
     "DimTypesNeg": M("DimTypes-widened-guard", "DimTypes.tla", "MC_DimTypesNeg.cfg", workers=2, expect_violation=True),
+    "Lanes": M("Lanes-individual-boundary-dispatch", "Lanes.tla", "MC_Lanes.cfg", workers=2),
+    "LanesNeg": M("Lanes-boundary-peeled-along-axis-1", "Lanes.tla", "MC_LanesNeg.cfg", workers=2, expect_violation=True),
     "Buffers": M("Buffers", "Buffers.tla", "MC_Buffers.cfg", "MC_Buffers_thorough.cfg", workers=6),
     "BuffersNegShape": M("Buffers-as-found-D4", "Buffers.tla", "MC_BuffersNeg.cfg", workers=2, expect_violation=True),
     "BuffersNegLayout": M("Buffers-as-found-D3", "Buffers.tla", "MC_BuffersNeg2.cfg", workers=2, expect_violation=True),
@@ -232,6 +234,8 @@ MODELS = {
 
 GENS = {
     "Monotone": {"name": "Gen_Monotone", "module": "Gen_Monotone.tla", "cfg": "Gen_Monotone.cfg", "cfg_thorough": "Gen_Monotone_thorough.cfg", "scenario": "mono"},
+    "Builder": {"name": "Gen_Builder", "module": "Gen_Builder.tla", "cfg": "Gen_Builder.cfg", "scenario": "script"},
+    "Buffers": {"name": "Gen_Buffers", "module": "Gen_Buffers.tla", "cfg": "Gen_Buffers.cfg", "scenario": "script"},
     "Lookup": {"name": "Gen_Lookup", "module": "Gen_Lookup.tla", "cfg": "Gen_Lookup.cfg", "cfg_thorough": "Gen_Lookup_thorough.cfg", "scenario": "lower"},
 }
 
@@ -243,13 +247,13 @@ PROP_MODELS = {
     "C05": ["NdInterp"],
     "C06": ["Linear", "Bilinear", "SplineAlgo"],
     "C07": ["SplineTheorems"],
-    "C08": ["SplineAlgo"],
+    "C08": ["Lanes", "LanesNeg", "SplineAlgo"],
     "C09": ["Buffers", "DimTypes", "NdInterp"],
     "C10": ["Builder", "Builder2", "BuilderNeg", "Builder2Neg"],
     "C11": ["Lookup", "LookupSmall", "LookupNeg"],
     "C12": ["Monotone", "MonotoneNaN", "MonotoneQ"],
     "C13": ["Buffers", "BuffersNegLayout"],
-    "C14": ["Buffers", "BuffersNegShape"],
+    "C14": ["Buffers", "BuffersNegShape", "NdInterp"],
     "C15": ["Linear", "Bilinear", "SplineTheorems"],
     "C16": ["SplineTheorems", "Linear", "Bilinear"],
     "C17": ["NdInterp", "NdInterpNeg"],
@@ -257,13 +261,15 @@ PROP_MODELS = {
     "C19": ["DimTypes", "DimTypesNeg"],
     "C20": ["Linear", "Bilinear"],
 }
-PROP_GENS = {"C12": ["Monotone"], "C11": ["Lookup"]}
+PROP_GENS = {"C12": ["Monotone"], "C11": ["Lookup"], "C10": ["Builder"], "C14": ["Buffers"], "C13": ["Buffers"]}
 
 for _p, _ms in PROP_MODELS.items():
     PROPS[_p]["mc"] = [MODELS[m] for m in _ms]
 for _p, _gs in PROP_GENS.items():
     PROPS[_p]["gen"] = [GENS[g] for g in _gs]
 # the generated cases replace the harness-local enumeration of these scenarios
+PROPS["C11"]["aux"] = [{"name": "apalache-inductive-invariant-of-the-search-loop-for-any-axis-length",
+                        "cmd": "spec/apalache/run.sh"}]
 PROPS["C12"]["scenarios"] = []
 PROPS["C11"]["scenarios"] = []
 
